@@ -18,6 +18,8 @@ import (
 	"sync"
 	"sync/atomic"
 	"time"
+
+	"verif/harness/internal/hooks"
 )
 
 // Violation is one refuting observation.
@@ -355,13 +357,22 @@ func TopFrame(stack string) string {
 }
 
 func trimStack(b []byte) string {
-	s := string(b)
-	lines := strings.Split(s, "\n")
-	// drop the frames of debug.Stack, the deferred func and panic itself
+	lines := strings.Split(string(b), "\n")
+	// keep the frames between the panic and the first harness frame
+	start := 0
+	for i, l := range lines {
+		if strings.HasPrefix(l, "panic(") {
+			start = i + 2
+			break
+		}
+	}
 	var out []string
-	for _, l := range lines {
-		out = append(out, l)
-		if len(out) > 40 {
+	for i := start; i < len(lines); i++ {
+		if strings.HasPrefix(lines[i], "verif/harness/") || strings.HasPrefix(lines[i], "main.") {
+			break
+		}
+		out = append(out, lines[i])
+		if len(out) > 30 {
 			break
 		}
 	}
@@ -377,7 +388,7 @@ func RunWorker(c *Ctx) error {
 		return fmt.Errorf("unknown property %q", c.Prop)
 	}
 	c.res = Result{Prop: c.Prop, Tier: c.Tier, Seed: c.Seed, Shard: c.Shard,
-		Classes: map[string]int64{}, Skipped: map[string]int64{}, Max: map[string]float64{}}
+		Classes: map[string]int64{}, Skipped: map[string]int64{}, Max: map[string]float64{}, Hooks: hooks.On}
 	c.distinct = map[uint64]struct{}{}
 	c.sampleN = map[string]int{}
 	if c.SkipSet == nil {
